@@ -16,6 +16,7 @@
      judge of the property on a differing line.
 """
 import ctypes
+import glob
 import math
 import os
 import random
@@ -612,8 +613,14 @@ def tokenize(s):
 class ExprParser:
     """C++ arithmetic subset with the usual precedence and left associativity"""
 
-    def __init__(self, toks):
-        self.t, self.i = toks, 0
+    def __init__(self, toks, tree=False):
+        self.t, self.i, self.tree = toks, 0, tree
+
+    def mk_bin(self, op, a, b):
+        return ("b", op, a, b) if self.tree else "(%s %s %s)" % (op, a, b)
+
+    def mk_un(self, op, a):
+        return ("u", op, a) if self.tree else "(%s %s)" % (op, a)
 
     def peek(self):
         return self.t[self.i] if self.i < len(self.t) else ("end", "")
@@ -630,7 +637,7 @@ class ExprParser:
         while self.peek() in (("op", "+"), ("op", "-")):
             op = self.eat()[1]
             b = self.term()
-            a = "(%s %s %s)" % ("add" if op == "+" else "sub", a, b)
+            a = self.mk_bin("add" if op == "+" else "sub", a, b)
         return a
 
     def term(self):
@@ -638,20 +645,20 @@ class ExprParser:
         while self.peek() in (("op", "*"), ("op", "/")):
             op = self.eat()[1]
             b = self.unary()
-            a = "(%s %s %s)" % ("mul" if op == "*" else "div", a, b)
+            a = self.mk_bin("mul" if op == "*" else "div", a, b)
         return a
 
     def unary(self):
         if self.peek() == ("op", "-"):
             self.eat()
-            return "(neg %s)" % self.unary()
+            return self.mk_un("neg", self.unary())
         return self.primary()
 
     def primary(self):
         k = self.peek()
         if k[0] == "num":
             self.eat()
-            return "(l %s)" % bits(float(k[1]))
+            return ("l", k[1]) if self.tree else "(l %s)" % bits(float(k[1]))
         if k == ("op", "("):
             self.eat()
             a = self.expr()
@@ -673,11 +680,11 @@ class ExprParser:
                     args.append(self.expr())
                 self.eat(")")
                 if name in FUN_UN and len(args) == 1:
-                    return "(%s %s)" % (FUN_UN[name], args[0])
+                    return self.mk_un(FUN_UN[name], args[0])
                 if name in FUN_BIN and len(args) == 2:
-                    return "(%s %s %s)" % (FUN_BIN[name], args[0], args[1])
+                    return self.mk_bin(FUN_BIN[name], args[0], args[1])
                 raise ParseError("unknown call %s/%d" % (name, len(args)))
-            return "(v %s)" % name
+            return ("v", name) if self.tree else "(v %s)" % name
         raise ParseError("unexpected token '%s'" % k[1])
 
 
@@ -1065,6 +1072,158 @@ def fmt_bits(h):
         return h
 
 
+# ---------------------------------------------------------------- the repository's property files (run level only)
+def strip_comments(t):
+    t = re.sub(r"/\*.*?\*/", " ", t, flags=re.S)
+    return re.sub(r"//[^\n]*", " ", t)
+
+
+def corpus_desc(path):
+    """a repository material property as a description, when it lies in the modelled fragment (else ParseError);
+    local variables of the body are inlined; returns (description, sampling boxes of the inputs)"""
+    raw = open(path).read()
+    t = strip_comments(raw)
+    for bad in ("@UseQt", "@MaterialLaw", "@Import", "@Data", "@Includes", "@Interface", "@Link", "@TFELLibraries", "@Library", "@UnitSystem"):
+        if bad in t:
+            raise ParseError("uses %s" % bad)
+    t = re.sub(r"@Description\s*\{.*?\}", " ", t, flags=re.S)
+    fm = re.search(r"@Function\s*\{(.*)\}", t, re.S)
+    if not fm:
+        raise ParseError("no @Function")
+    body_text = fm.group(1)
+    head = t[:fm.start()] + t[fm.end():]
+    d = Desc()
+    d.declare_output = False
+    boxes = {}
+    for st in [x.strip() for x in head.split(";") if x.strip()]:
+        m = re.match(r"@(Parser|DSL)\s+\w+$", st)
+        if m:
+            continue
+        m = re.match(r"@Law\s+(\w+)$", st)
+        if m:
+            d.law_name = m.group(1)
+            continue
+        m = re.match(r"@Material\s+(\w+)$", st)
+        if m:
+            d.material = m.group(1)
+            continue
+        if re.match(r"@(Author|Date)\b", st):
+            continue
+        m = re.match(r"@(Input|StateVariable)\s+(.*)$", st, re.S)
+        if m:
+            names = [x.strip() for x in m.group(2).split(",")]
+            first = names[0].split()
+            typ = first[0] if len(first) == 2 else "real"
+            names[0] = first[-1]
+            for n in names:
+                if not re.fullmatch(r"\w+", n):
+                    raise ParseError("input declaration '%s'" % st)
+                d.inputs.append(Var(n, typ))
+            continue
+        m = re.match(r"@Output\s+(?:(\w+)\s+)?(\w+)$", st)
+        if m:
+            d.output = Var(m.group(2), m.group(1) or "real")
+            d.declare_output = True
+            continue
+        m = re.match(r"@Parameter\s+(?:(\w+)\s+)?(\w+)\s*=\s*(\S+)$", st)
+        if m:
+            float(m.group(3))
+            d.params.append((Var(m.group(2), m.group(1) or "real"), m.group(3), "plain"))
+            continue
+        m = re.match(r"@(StaticVar|StaticVariable)\s+(\w+)\s+(\w+)\s*=\s*(\S+)$", st)
+        if m:
+            if m.group(2) not in ("real", "double"):
+                raise ParseError("static variable of type %s" % m.group(2))
+            float(m.group(4))
+            d.statics.append((m.group(3), "@StaticVariable", m.group(2), m.group(4)))
+            continue
+        m = re.match(r"@Constant\s+(\w+)\s*=\s*(\S+)$", st)
+        if m:
+            float(m.group(2))
+            d.statics.append((m.group(1), "@Constant", "real", m.group(2)))
+            continue
+        m = re.match(r"(\w+)\s*\.\s*set(GlossaryName|EntryName)\s*\(\s*\"(\w+)\"\s*\)$", st)
+        if m:
+            for v in d.inputs + [d.output]:          # (parameters keep their name as only key: glossary aliases are not resolved here)
+                if v.name == m.group(1):
+                    v.ext, v.extkind = m.group(3), "glossary" if m.group(2) == "GlossaryName" else "entry"
+            continue
+        m = re.match(r"@(Physical)?Bounds\s+(\w+)\s+in\s+([\[\]])\s*([^:\s]+)\s*:\s*([^\[\]\s]+)\s*([\[\]])$", st)
+        if m:
+            lo = None if m.group(4) == "*" else float(m.group(4))
+            hi = None if m.group(5) == "*" else float(m.group(5))
+            b = boxes.setdefault(m.group(2), [None, None])
+            b[0] = lo if b[0] is None else (b[0] if lo is None else max(b[0], lo))
+            b[1] = hi if b[1] is None else (b[1] if hi is None else min(b[1], hi))
+            continue
+        raise ParseError("statement '%s'" % st[:60])
+    if not d.law_name:
+        raise ParseError("no @Law")
+    if re.search(r"(?<![\w.])\d+\s*/\s*\d+(?![\w.])", body_text):
+        raise ParseError("integer division")
+    names = {v.name: ("i", k) for k, v in enumerate(d.inputs)}
+    names.update({p[0].name: ("p", k) for k, p in enumerate(d.params)})
+    names.update({s_[0]: ("s", k) for k, s_ in enumerate(d.statics)})
+    names["PhysicalConstants"] = None
+    local = {}
+
+    def resolve(tr):
+        if tr[0] == "v":
+            if tr[1] == d.output.name:
+                return ("o",)
+            if tr[1] in local:
+                return local[tr[1]]
+            if names.get(tr[1]) is None:
+                raise ParseError("unknown name %s" % tr[1])
+            return names[tr[1]]
+        if tr[0] == "l":
+            float(tr[1])
+            return tr
+        if tr[0] == "u":
+            return ("u", tr[1], resolve(tr[2]))
+        return ("b", tr[1], resolve(tr[2]), resolve(tr[3]))
+    body = []
+    for st in [x.strip() for x in body_text.split(";") if x.strip()]:
+        m = re.match(r"(?:const\s+)?(?:real|double|\w+)\s+(\w+)\s*=(?!=)(.*)$", st, re.S)
+        m2 = re.match(r"(\w+)\s*(=|\+=|-=|\*=|/=)(?!=)(.*)$", st, re.S)
+        if m and not (m2 and m2.group(1) == d.output.name and not st.startswith("const")) and len(st.split("=")[0].split()) >= 2:
+            p = ExprParser(tokenize(m.group(2)), tree=True)
+            e = p.expr()
+            if p.peek()[0] != "end":
+                raise ParseError("trailing tokens")
+            local[m.group(1)] = resolve(e)
+            continue
+        if m2 and m2.group(1) == d.output.name:
+            p = ExprParser(tokenize(m2.group(3)), tree=True)
+            e = p.expr()
+            if p.peek()[0] != "end":
+                raise ParseError("trailing tokens")
+            body.append((AOPS[m2.group(2)], resolve(e)))
+            continue
+        raise ParseError("body statement '%s'" % st[:60])
+    if not body or body[0][0] != "set":
+        raise ParseError("the body does not start by assigning the output")
+    d.law = ("fn", body)
+    d.texts["mfront"] = raw
+    d.corpus_file = os.path.basename(path)
+    d.out_box = boxes.get(d.output.name)
+    return d, {v.name: boxes.get(v.name, [None, None]) for v in d.inputs}
+
+
+def corpus_args(rng, d, boxes):
+    out = []
+    for v in d.inputs:
+        lo, hi = boxes[v.name]
+        if lo is None and hi is None:
+            lo, hi = 250.0, 1500.0
+        elif lo is None:
+            lo = hi - 500.0
+        elif hi is None:
+            hi = lo + 1000.0
+        out.append(rng.uniform(lo + 1e-3 * (hi - lo), hi - 1e-3 * (hi - lo)))
+    return out
+
+
 # ---------------------------------------------------------------- build steps
 def mfront_env():
     dirs = set()
@@ -1164,6 +1323,11 @@ def effective(d, ov, iface):
     return pv, codes
 
 
+def shutil_copy(a, b):
+    with open(a, "rb") as f, open(b, "wb") as g:
+        g.write(f.read())
+
+
 def run(ck):
     rng = random.Random(ck.seed)
     ck.ensure_targets("mfront", "mfront-query")
@@ -1184,6 +1348,25 @@ def run(ck):
             f.write(d.texts["mfront"])
     for k in range(0, len(descs), 40):
         run_mfront(ck, gendir, [d.law_name + ".mfront" for d in descs[k:k + 40]])
+
+    # the repository's own material properties that lie in the modelled fragment (run level only)
+    corpus, corpus_boxes, corpus_skipped = [], {}, {}
+    for path in sorted(glob.glob(os.path.join(vlib.REPO, "mfront", "tests", "properties", "*.mfront"))):
+        try:
+            d, boxes = corpus_desc(path)
+            if d.fname in {x.fname for x in descs + corpus}:
+                raise ParseError("name already used")
+            corpus.append(d)
+            corpus_boxes[d.fname] = boxes
+        except (ParseError, ValueError) as e:
+            corpus_skipped[os.path.basename(path)] = str(e)[:80]
+    if ck.quick:
+        rng.shuffle(corpus)
+        corpus = corpus[:6]
+    for d in corpus:
+        shutil_copy(os.path.join(vlib.REPO, "mfront", "tests", "properties", d.corpus_file), os.path.join(gendir, d.corpus_file))
+    if corpus:
+        run_mfront(ck, gendir, [d.corpus_file for d in corpus])
 
     driver = ck.lean_exe("c37driver", "TfelVerif/C37/Driver.lean")
     res = ck.lean(PROPS, PROPS)
@@ -1247,6 +1430,8 @@ def run(ck):
                 text_diffs[key] = site_of_difference(itf, mod, em)
 
     # ---- (ii) run level
+    generated = len(descs)
+    descs = descs + corpus
     exes = build_all(ck, descs, gendir)
     by_name = {d.fname: d for d in descs}
     ncall = 6 if ck.quick else 10
@@ -1257,6 +1442,8 @@ def run(ck):
     file_ov = {}
     for d in descs:
         base = [sample_args(rng, d) for _ in range(ncall)]
+        if d.fname in corpus_boxes:
+            base = [corpus_args(rng, d, corpus_boxes[d.fname]) for _ in range(ncall)]
         if d.law[0] in ("lin", "spl"):
             xs = [float(p[0]) for p in sorted_pts(d)]
             extra = [xs[0], xs[-1], xs[len(xs) // 2], xs[0] - 1.5, xs[-1] + 2.25, (xs[0] + xs[1]) / 2,
@@ -1335,6 +1522,10 @@ def run(ck):
             mod = mo[i].split() if i < len(mo) else ["missing", "missing"]
             pv, codes = effective(d, h, itf)
             val, eflag = judge_law(d, a, pv, spline_d.get(d.law_name))
+            ob = getattr(d, "out_box", None)
+            if ob and ((ob[0] is not None and val < ob[0]) or (ob[1] is not None and val > ob[1])):
+                hist["corpus:output-outside-its-bounds (C38)"] = hist.get("corpus:output-outside-its-bounds (C38)", 0) + 1
+                continue
             nonfinite = val != val or abs(val) == float("inf")
             if not nonfinite and not eflag:
                 counters["finite"] += 1
@@ -1442,9 +1633,10 @@ def run(ck):
         "evaluations": evaluations, "distinct_nontrivial": len(distinct),
         "rule": "one evaluation = one call of a compiled emitted function compared bit for bit with the Lean model and the judge; distinct = "
                 "distinct (law, interface/channel, argument vector, override history)",
-        "exhaustive": False, "programs": len(descs), "program_kinds": {k: sum(1 for p in plan if p[0] == k) for k in sorted({p[0] for p in plan})},
+        "exhaustive": False, "programs": generated, "repository_files_run": [d.corpus_file for d in corpus],
+        "repository_files_outside_the_fragment": corpus_skipped, "program_kinds": {k: sum(1 for p in plan if p[0] == k) for k in sorted({p[0] for p in plan})},
         "constant_classes": {c: sum(1 for p in plan if p[1] == c) for c in ("short", "medium", "long")},
-        "ir_compared": len(descs) * 3, "ir_differences": len(text_diffs), "ir_parse_errors": len(parse_errors),
+        "ir_compared": generated * 3, "ir_differences": len(text_diffs), "ir_parse_errors": len(parse_errors),
         "spline_slopes_checked": slope_checks, "finite_bit_exact_comparisons": finite,
         "second_round_calls": counters["second_round"],
         "histogram": dict(sorted(hist.items())), "samples": samples,
